@@ -768,3 +768,28 @@ func unqualify(t string) string {
 	t = strings.ReplaceAll(t, "interface{}", "any")
 	return strings.ReplaceAll(t, " ", "")
 }
+
+// argsOf: the operands of a call as they are at the call: an operand that is a merge (phi) of
+// several values is resolved to the one value the facts holding at the call leave possible
+// (a result variable of an expanded helper under `if err == nil`, say). Sound: refine only
+// resolves when every other incoming value is ruled out.
+func argsOf(ci ssa.CallInstruction) []ssa.Value {
+	args := ci.Common().Args
+	var facts []Fact
+	var out []ssa.Value
+	for i, a := range args {
+		if _, isPhi := a.(*ssa.Phi); isPhi {
+			if facts == nil {
+				facts = factsAt(ci)
+			}
+			if out == nil {
+				out = append([]ssa.Value{}, args...)
+			}
+			out[i] = refine(a, facts)
+		}
+	}
+	if out != nil {
+		return out
+	}
+	return args
+}
